@@ -14,10 +14,17 @@
    Layer._paused / _paused_event_queue); "http1", "http2" have one HttpStream per flow, a pending hook blocks only it.
    Messages: raw protocols: one flow, message n goes to the peer chosen on arrival.  http / dns: flow f has request
    2f-1 (to the server) and response 2f (to the client, can arrive once the request has been forwarded).
+   Streamed http messages (request.stream / response.stream): head and body are forwarded when they arrive
+   (start_request_stream / start_response_stream), before the request / response hook; after that hook only the end
+   of the message is left (SendHttp(RequestEndOfMessage) / flow_done); send_response looks at the kill marker,
+   state_stream_request_body does not.
    User actions (resume, kill, edit) do not run the event loop; Run does (waiters wake up in the order of resume()). *)
 EXTENDS Mon_Intercept, TLC
-CONSTANTS Cfg,        \* per protocol to explore: [n |-> messages, flows |-> flows, user |-> user actions per behaviour]
-          Decisions
+CONSTANTS Cfg,        \* per protocol to explore: [n |-> messages, flows |-> flows, user |-> user actions per behaviour,
+                      \*   str |-> the messages that may be streamed (http: the addon sets .stream in the *headers hook)]
+          Decisions,
+          StreamReqKillCheck   \* FALSE copies the code: state_stream_request_body has no check_killed after the request
+                               \* hook, the end of a streamed request is sent on although the flow was killed (C11-F3)
 VARIABLES proto,
           ms,        \* per message: [st: "none", "queued", "waiting", "rel", "done", to, dec, cur]
           fl,        \* per flow: [ic, kd, live, known]  (known: the harness has seen the flow object in a hook)
@@ -45,7 +52,7 @@ IsReq(n) == n % 2 = 1
 HasHead == proto \in {"http1", "http2"}
 
 Init == /\ proto \in Protos
-        /\ ms = [n \in Msgs |-> [st |-> "none", to |-> "s", dec |-> "pass", cur |-> n]]
+        /\ ms = [n \in Msgs |-> [st |-> "none", to |-> "s", dec |-> "pass", cur |-> n, str |-> FALSE]]
         /\ fl = [f \in Flows |-> [ic |-> FALSE, kd |-> FALSE, live |-> TRUE, known |-> FALSE]]
         /\ busy = 0 /\ q = <<>> /\ relq = <<>> /\ fwd = {} /\ closed = FALSE /\ sconn = FALSE /\ nuser = 0
         /\ mon = MonStep(MonInit, [k |-> "cfg", proto |-> proto]) /\ obs = <<>>
@@ -67,7 +74,9 @@ FlushSeq(w, s, wdone) ==
   ELSE IF wdone THEN FlushSeq(w, Tail(s), TRUE)
   ELSE LET ws == SelectSeq(s, LAMBDA x : x.t = "w")
            ids == [i \in DOMAIN ws |-> w.ms[ws[i].n].cur]
-       IN FlushSeq([w EXCEPT !.sconn = TRUE, !.out = Append(@, [k |-> "write", to |-> "s", hd |-> ids, bd |-> ids])],
+           fin == IF proto = "http2" THEN [i \in DOMAIN ws |-> ws[i].n] ELSE <<>>
+       IN FlushSeq([w EXCEPT !.sconn = TRUE,
+                             !.out = Append(@, [k |-> "write", to |-> "s", hd |-> ids, bd |-> ids, fin |-> fin])],
                    Tail(s), TRUE)
 Flush(w) == [FlushSeq(w, w.defer, FALSE) EXCEPT !.defer = <<>>]
 Commit(w0) == LET w == Flush(w0) IN
@@ -83,7 +92,17 @@ Forward(w, n) ==
   [w EXCEPT !.fwd = @ \cup {n},
             !.fl[f].live = IF HasHead /\ ~IsReq(n) THEN FALSE ELSE @,     \* HttpStream.flow_done
             !.out = Append(@, [k |-> "write", to |-> w.ms[n].to, hd |-> IF HasHead THEN <<id>> ELSE <<>>,
-                                                     bd |-> <<id>>])]
+                                                     bd |-> <<id>>, fin |-> IF proto = "http2" THEN <<n>> ELSE <<>>])]
+\* a streamed message arrives: head and body go on at once (the connect, if needed, completes within the step)
+StreamOn(w, n) ==
+  [w EXCEPT !.sconn = IF IsReq(n) THEN TRUE ELSE @,
+            !.out = Append(@, [k |-> "write", to |-> w.ms[n].to, hd |-> <<w.ms[n].cur>>, bd |-> <<w.ms[n].cur>>, fin |-> <<>>])]
+\* ... and after its hook the end of the message
+StreamEnd(w, n) ==
+  LET f == FlowOfN(n) IN
+  [w EXCEPT !.fwd = @ \cup {n},
+            !.fl[f].live = IF ~IsReq(n) THEN FALSE ELSE @,
+            !.out = Append(@, [k |-> "write", to |-> w.ms[n].to, hd |-> <<>>, bd |-> <<>>, fin |-> <<n>>])]
 \* check_killed / DNSLayer.handle_error: the flow is ended towards the client without content
 Abort(w, n) ==
   IF HasHead /\ IsReq(n)
@@ -97,7 +116,9 @@ Release(w, n) ==
   LET f == FlowOfN(n)
       w1 == [w EXCEPT !.ms[n].st = "done", !.busy = IF Serial THEN 0 ELSE @,
                       !.out = Append(@, [k |-> "release", n |-> n, f |-> f])]
-      w2 == IF w1.fl[f].kd /\ ChecksKill(n) THEN Abort(w1, n) ELSE Forward(w1, n)
+      w2 == IF w1.ms[n].str
+              THEN IF w1.fl[f].kd /\ (~IsReq(n) \/ StreamReqKillCheck) THEN Abort(w1, n) ELSE StreamEnd(w1, n)
+            ELSE IF w1.fl[f].kd /\ ChecksKill(n) THEN Abort(w1, n) ELSE Forward(w1, n)
   IN Drain(w2)
 \* the message hook of n runs: the addon decides, then wait_for_resume
 Fire(w, n) ==
@@ -121,13 +142,16 @@ CanArrive(n) ==
                            /\ (proto = "http1" => \A k \in 1..(n - 1) : k \in fwd)
           ELSE (n - 1) \in fwd
 
-Arrive(n, to, d) ==
+Arrive(n, to, d, str) ==
   /\ Live /\ n \in Msgs /\ CanArrive(n) /\ (Paired => to = (IF IsReq(n) THEN "s" ELSE "c"))
+  /\ (str => HasHead /\ n \in Cfg[proto].str)
   /\ LET f == FlowOfN(n)
-         w0 == [W0([k |-> "arrive", n |-> n, f |-> f, to |-> to]) EXCEPT !.ms[n].to = to, !.ms[n].dec = d]
+         w0 == [W0([k |-> "arrive", n |-> n, f |-> f, to |-> to, str |-> str]) EXCEPT
+                   !.ms[n].to = to, !.ms[n].dec = d, !.ms[n].str = str]
      IN IF Serial /\ busy # 0 THEN Commit([w0 EXCEPT !.ms[n].st = "queued", !.q = Append(@, n)])
         ELSE IF HasHead /\ ~IsReq(n) /\ fl[f].kd
           THEN Commit(Abort([w0 EXCEPT !.ms[n].st = "done"], n))     \* check_killed after responseheaders
+        ELSE IF str THEN Commit(Fire(StreamOn(w0, n), n))
         ELSE Commit(Fire(w0, n))
   /\ UNCHANGED <<proto, relq, nuser>>
 
@@ -150,7 +174,7 @@ Kill(f) ==
 
 EditMsg(f) ==
   /\ Live /\ f \in Flows /\ nuser < MaxUser /\ nuser' = nuser + 1
-  /\ \E n \in Msgs : /\ FlowOfN(n) = f /\ ms[n].st \in {"waiting", "rel"} /\ ms[n].cur = n
+  /\ \E n \in Msgs : /\ FlowOfN(n) = f /\ ms[n].st \in {"waiting", "rel"} /\ ms[n].cur = n /\ ~ms[n].str
                      /\ ms' = [ms EXCEPT ![n].cur = n + EditOff]
                      /\ Emit(<<[k |-> "edit", n |-> n, f |-> f, id |-> n + EditOff]>>)
   /\ UNCHANGED <<proto, fl, busy, q, relq, fwd, closed, sconn>>
@@ -162,7 +186,7 @@ Run ==
   /\ Commit(RunAll(W0([k |-> "run"]), relq))
   /\ UNCHANGED <<proto, nuser>>
 
-Next == \/ \E n \in AllMsgs, to \in {"s", "c"}, d \in Decisions : Arrive(n, to, d)
+Next == \/ \E n \in AllMsgs, to \in {"s", "c"}, d \in Decisions, str \in BOOLEAN : Arrive(n, to, d, str)
         \/ \E f \in AllFlows : Resume(f)
         \/ \E f \in AllFlows : Kill(f)
         \/ \E f \in AllFlows : EditMsg(f)
